@@ -537,8 +537,20 @@ def run(tier, seed):
     c.flush()
     n = 420 if tier == "quick" else 4200
     texts = generated(c, pool, n)
+    # BIP380's checksum is defined on every string over its input character set: random strings over all three
+    # character groups in every length residue mod 3 (the last, incomplete group is encoded differently), besides
+    # descriptor texts (which nearly always end in group-0 characters)
+    CS = ("0123456789()[],'/*abcdefgh@:$%{}" "IJKLMNOPQRSTUVWXYZ&+-.;<=>?!^_|~" "ijklmnopqrstuvwxyzABCDEFGH`#\"\\ ")
+    rand_texts = []
+    for ln in list(range(1, 13)) * (2 if tier == "quick" else 12) + [c.rng.randrange(13, 200) for _ in range(30 if tier == "quick" else 400)]:
+        t = "".join(c.rng.choice(CS) for _ in range(ln))
+        # the tail in a chosen group, so that every (residue, group) pair occurs
+        g = c.rng.randrange(3)
+        tail = "".join(c.rng.choice(CS[32 * g:32 * g + 32]) for _ in range(min(ln, c.rng.choice([1, 2]))))
+        # '#' separates a text from its checksum in add_checksum: not part of the bodies generated here
+        rand_texts.append((t[:len(t) - len(tail)] + tail).replace("#", "H"))
     checksum_cases(c, texts[: (50 if tier == "quick" else 700)] + ["", "a", "ab", "abc", "abcd", "raw(deadbeef)",
-                                                                    "é", "wpkh(\x7f)"], bad)
+                                                                    "é", "wpkh(\x7f)"] + rand_texts, bad)
     flush_bad_checksums(c, bad)
     c.flush()
     return c.finish(search=search)
